@@ -58,10 +58,14 @@ class Obj:
 
 
 class _Body:
-    def __init__(self, data: bytes):
+    def __init__(self, data: bytes, fault: Optional[BaseException] = None):
         self._b = io.BytesIO(data)
+        self._fault = fault  # raised by the first read(): the connection broke while the body was streaming
 
     def read(self, n: Optional[int] = None) -> bytes:
+        if self._fault is not None:
+            f, self._fault = self._fault, None
+            raise f
         return self._b.read() if n is None or n < 0 else self._b.read(n)
 
     def close(self) -> None:
@@ -76,6 +80,7 @@ class FakeS3:
         self.after: List[Callable[[Req, Any], None]] = []  # called after (result or exc)
         self.nreq = 0
         self.digest = 0  # order independent digest of (key, etag, lm)
+        self.body_fault: Any = None  # callable(Req) -> exception raised by the first read() of that response body
         self.page_size = 1000  # keys per list_objects_v2 page (AWS: 1000); small values exercise pagination
         self.clock_skew = 0.0  # server clock minus client clock (LastModified is stamped by the server)
 
@@ -178,7 +183,8 @@ class FakeS3:
                 if first >= len(data) or first > last:
                     raise _err("InvalidRange", "GetObject", 416)
                 data = data[first:last + 1]
-            res = {"Body": _Body(data), "ETag": o.etag, "ContentLength": len(data),
+            bf = self.body_fault(req) if self.body_fault is not None else None
+            res = {"Body": _Body(data, bf), "ETag": o.etag, "ContentLength": len(data),
                    "LastModified": REAL_DATETIME.fromtimestamp(o.lm, _dt.timezone.utc)}
         except BaseException as e:
             self._done(req, e)
